@@ -130,7 +130,7 @@ Fixpoint dec_digits (fuel : nat) (n : N) (acc : bytes) : bytes :=
       if N.eqb q 0 then d :: acc else dec_digits f q (d :: acc)
   end.
 
-Definition dec (n : N) : bytes := dec_digits (S (N.size_nat n)) n [].
+Definition dec (n : N) : bytes := dec_digits (S (N.to_nat (N.size n))) n [].
 
 Definition set_int (z : Z) : bytes :=
   match z with
